@@ -100,7 +100,17 @@ def lin_neg(a):
 def lin_str(a):
     if not a:
         return '0'
-    return ' + '.join('%s*%s' % (v, k or '1') for k, v in sorted(a.items()))
+    out = []
+    for k, v in sorted(a.items()):
+        if not k:
+            out.append(str(v))
+        elif v == 1:
+            out.append(k)
+        elif v == -1:
+            out.append('-' + k)
+        else:
+            out.append('%s*%s' % (v, k))
+    return ' + '.join(out).replace('+ -', '- ')
 
 
 # ------------------------------------------------------------------ canonical form
